@@ -41,3 +41,11 @@ Theorem C12_history_converges :
     DirInv.good (d_ents d') = true /\ run cur_csr cur_nilcert d' default_strat None = (ROk, d', []).
 Proof. exact history_converges. Qed.
 Print Assumptions C12_history_converges.
+
+(* a run started from the command line preserves the invariant as well *)
+Theorem C12_command_line_preserves_invariant :
+  forall (d : dir) (f : flags) (input : option bytes) (r : cli_result) (d' : dir) (w : list alias),
+    wf_dir (d_ents d) -> dir_inv d = true -> blind_free (d_ents d) ->
+    cli_sign cur_csr cur_nilcert d f input = (r, d', w) -> dir_inv d' = true.
+Proof. exact cli_preserves_inv. Qed.
+Print Assumptions C12_command_line_preserves_invariant.
